@@ -69,6 +69,50 @@ def _subst(src, env):
     return unparse(S().visit(t))
 
 
+_UNALIAS = {}
+
+
+def _unalias_children(fnode):
+    """the function with local aliases of the child map read through: `children = self._children` (the only binding of that local,
+    the attribute itself never rebound in the function) makes `children[k] = v` / `del children[k]` / `children.pop(k)` operations on
+    self._children - the same object"""
+    ent = _UNALIAS.get(id(fnode))
+    if ent is not None and ent[0] is fnode:
+        return ent[1]
+    import copy
+    out = fnode
+    aliases = {}
+    stores = {}
+    for n in ast.walk(fnode):
+        if isinstance(n, ast.Name) and isinstance(n.ctx, (ast.Store, ast.Del)):
+            stores[n.id] = stores.get(n.id, 0) + 1
+    rebinds = any(isinstance(n, ast.Attribute) and isinstance(n.ctx, (ast.Store, ast.Del)) and unparse(n) == 'self._children' for n in ast.walk(fnode))
+    if not rebinds:
+        for st in fnode.body:
+            if isinstance(st, ast.Assign) and len(st.targets) == 1 and isinstance(st.targets[0], ast.Name) and unparse(st.value) == 'self._children' and stores.get(st.targets[0].id) == 1 \
+                    and st.targets[0].id not in [a.arg for a in fnode.args.args + fnode.args.kwonlyargs + fnode.args.posonlyargs]:
+                aliases[st.targets[0].id] = st
+    if aliases:
+        out = copy.deepcopy(fnode)
+
+        class S(ast.NodeTransformer):
+            def visit_FunctionDef(self, n):
+                return n if n is not out else self.generic_visit(n)
+
+            def visit_Lambda(self, n):
+                return n
+
+            def visit_Name(self, n):
+                if n.id in aliases and isinstance(n.ctx, ast.Load):
+                    return ast.copy_location(ast.Attribute(value=ast.Name(id='self', ctx=ast.Load()), attr='_children', ctx=ast.Load()), n)
+                return n
+        out = S().visit(out)
+        out.body = [st for st in out.body if not (isinstance(st, ast.Assign) and len(st.targets) == 1 and isinstance(st.targets[0], ast.Name) and st.targets[0].id in aliases)]
+        ast.fix_missing_locations(out)
+    _UNALIAS[id(fnode)] = (fnode, out)
+    return out
+
+
 class Analyzer:
     def __init__(self, repo, cls_name, max_depth=9, max_paths=6000):
         self.repo = repo
@@ -168,7 +212,7 @@ class Analyzer:
         key = id(fi.node)
         if key in self._memo and not self._abort:
             return [p.copy() for p in self._memo[key]]
-        res = self._run(fi.node.body, [Path()], fi, depth)
+        res = self._run(_unalias_children(fi.node).body, [Path()], fi, depth)
         if depth > 0:
             # summarise: effect-free paths carry no information for the caller (its own branch tests are recorded
             # as facts by the caller); keep one representative per outcome
